@@ -77,9 +77,10 @@ def run_lbzip2(exe, args, data=None, env=None, timeout=60, stdin_path=None, stdo
     fout = open(stdout_path, "wb") if stdout_path else None
     try:
         p = subprocess.run([exe] + list(args), input=data if fin is None else None, stdin=fin,
-                           stdout=fout if fout else subprocess.PIPE, stderr=subprocess.PIPE, env=e, timeout=timeout)
+                           stdout=fout if fout else subprocess.PIPE, stderr=subprocess.PIPE, env=e, timeout=vlib.hang_timeout(timeout))
         return p.returncode, (p.stdout or b""), p.stderr, False
     except subprocess.TimeoutExpired as ex:
+        vlib.note_hang()
         return 124, (ex.stdout or b""), (ex.stderr or b""), True
     finally:
         if fin:
@@ -277,9 +278,10 @@ def run_piped(exe, args, data, frags=None, env=None, timeout=60, stdout_path=Non
     th = threading.Thread(target=feed, daemon=True)
     th.start()
     try:
-        out, err = p.communicate(timeout=timeout)
+        out, err = p.communicate(timeout=vlib.hang_timeout(timeout))
         to = False
     except subprocess.TimeoutExpired:
+        vlib.note_hang()
         p.kill()
         out, err = p.communicate()
         to = True
@@ -293,9 +295,10 @@ def run_file(exe, args, path, env=None, timeout=60):
     with open(path, "rb") as f:
         try:
             p = subprocess.run([exe] + list(args), stdin=f, stdout=subprocess.PIPE, stderr=subprocess.PIPE,
-                               env=clean_env(env), timeout=timeout)
+                               env=clean_env(env), timeout=vlib.hang_timeout(timeout))
             return p.returncode, p.stdout, p.stderr, False
         except subprocess.TimeoutExpired as ex:
+            vlib.note_hang()
             return 124, ex.stdout or b"", ex.stderr or b"", True
 
 
